@@ -156,6 +156,14 @@ lib.LIB_HANDLERS['numpy.array'] = _np_array
 def _np_moveaxis(ex, st, args, kwargs, node):
     if not _mine(ex) or st.spec:
         raise Unsupported('library call numpy.moveaxis has no LIBSPEC entry')
+    if len(args) == 3 and not kwargs and isinstance(args[1].lit, int) and isinstance(args[2].lit, int) \
+            and (args[1].lit, args[2].lit) != (0, -1):
+        # m3 (mutation review): other constant axes are not modelled; the result is SOME new array (arbitrary shape and
+        # content: weaker than the truth), so that a changed call is decided by the postconditions instead of leaving the subset
+        r, out = _new_array(ex, st)
+        st.write(r, 'shape', Val.ref(z3.Int(fresh_name('anyshape'))))
+        ex.ctx.note('A-NDARRAY-C10: np.moveaxis with axes other than (0, -1): an arbitrary new array (not modelled)')
+        return out
     if len(args) != 3 or kwargs or args[1].lit != 0 or args[2].lit != -1:
         raise Unsupported('numpy.moveaxis: only moveaxis(a, 0, -1) is modelled')
     A = args[0]
